@@ -16,7 +16,7 @@ import LyModel.Generated.Diff13
 * finally `isRedundant` (`lyd_diff_is_redundant`) may remove the target node.
 
 The target is mutated in place in the C; here every function returns the new node / sibling list, and the operation a target
-child inherits is taken from the *updated* parent (`childInh cur t'`), which is what the C's walk up the parents sees.
+child inherits is taken from the *updated* parent (`childInhOf t' cur`), which is what the C's walk up the parents sees.
 
 Quirks kept as they are: `none` on `replace` for a leaf sets the new value but adds no `orig-value` and keeps the default
 flag of the first diff; `delete` + `create` of a leaf equal to its schema default under `LYD_DIFF_MERGE_DEFAULTS` keeps the
@@ -153,7 +153,7 @@ def metaEq (name1 name2 : String) (v1 v2 : Option Bytes) : Bool := name1 == name
 /-- `lyd_diff_is_redundant`; returns the (possibly changed) node and the verdict -/
 def isRedundant (S : Schema) (inh : Option Op) (t : DNode) : DNode × Bool :=
   let child := !S.isDupInst t.sid && !(noKeys S t.kids).isEmpty
-  match effOp inh t with
+  match effOp t inh with
   | none => (t, false)
   | some op =>
     if op == .replace && S.isUserOrd t.sid then
@@ -194,7 +194,7 @@ children into the children `tkids` of the updated target node.  `sibs`: the sibl
 `diff_parent`, or the top level); `cur` / `sin`: the operations inherited at this level in the target / in the source. -/
 def mergeStep (S : Schema) (o : MergeOpts) (cur sin : Option Op) (src : DNode) (sibs : List DNode)
     (kidsK : Option Op → Option Op → List DNode → Except DiffErr (List DNode)) : Except DiffErr (List DNode) :=
-  match effOp sin src with
+  match effOp src sin with
   | none => .error .eint
   | some sop =>
     -- add a copy of the source subtree, its operation made explicit
@@ -207,7 +207,7 @@ def mergeStep (S : Schema) (o : MergeOpts) (cur sin : Option Op) (src : DNode) (
       match sibs[i]? with
       | none => add
       | some t =>
-        match effOp cur t with
+        match effOp t cur with
         | none => .error .eint
         | some cop =>
           -- special case of creating duplicate (leaf-)list instances
@@ -217,7 +217,7 @@ def mergeStep (S : Schema) (o : MergeOpts) (cur sin : Option Op) (src : DNode) (
           | .ok (t1, mv) =>
             -- all descendants of a key-less list act as keys: nothing to merge below
             if S.isDupInst src.sid then .ok (placeBack S cur sibs i t1 mv) else
-            match kidsK (childInh cur t1) (childInh sin src) t1.kids with
+            match kidsK (childInhOf t1 cur) (childInhOf src sin) t1.kids with
             | .error e => .error e
             | .ok ks' => .ok (placeBack S cur sibs i (t1.setKids ks') mv)
 
